@@ -3,7 +3,10 @@ package props
 import (
 	"bytes"
 	"fmt"
+	"os"
 	"strings"
+	"sync"
+	"sync/atomic"
 	"testing"
 	"time"
 
@@ -13,6 +16,8 @@ import (
 	"pgregory.net/rapid"
 
 	"verifharness/evid"
+	"verifharness/fakemc"
+	"verifharness/stack"
 	"verifharness/wire"
 )
 
@@ -523,5 +528,143 @@ func TestC03Random(t *testing.T) {
 			t.Fatalf("C03 random program %s schedule %v: %s\nhistory:\n  %s", p, sched, run.Violation, strings.Join(run.History, "\n  "))
 		}
 		rec.Case(run.Overlap, fmt.Sprintf("rnd|%s|%v", p, run.Trace), "random")
+	})
+}
+
+// TestC03Memproxy: the real memproxy binary with --locked, concurrent clients
+// on both ports hammering two keys, backend replies delayed by small drawn
+// amounts to widen the windows; the observed real-time history must be
+// linearizable and L1 must agree with L2 at the end.  Timing dependent: it can
+// miss an atomicity defect but cannot raise a false alarm.
+func TestC03Memproxy(t *testing.T) {
+	bin := os.Getenv("VERIF_MEMPROXY")
+	if bin == "" {
+		t.Skip("VERIF_MEMPROXY not set")
+	}
+	rec := evid.For("C03")
+	shard, _ := evid.Shard()
+	cfgs := []stack.Config{
+		{Shape: "l1l2+batch", Lock: "lockNr", L1: "std", L2: "std", Conc: 0},
+		{Shape: "l1l2+batch", Lock: "lock1r", L1: "std", L2: "std", Conc: 2},
+		{Shape: "l1l2+batch", Lock: "lockNr", L1: "std", L2: "std", Conc: 8},
+		{Shape: "l1l2+batch", Lock: "lock1r", L1: "chunked", L2: "std", Conc: 0},
+	}
+	cfg := cfgs[shard%len(cfgs)]
+	st, err := stack.External(cfg, bin)
+	if err != nil {
+		t.Fatalf("harness: %v", err)
+	}
+	defer st.Stop()
+	var delaySeed uint32 = 12345
+	delay := func(r *fakemc.Req) {
+		x := atomic.AddUint32(&delaySeed, 2654435761)
+		if d := (x >> 20) % 8; d > 4 {
+			time.Sleep(time.Duration(d*40) * time.Microsecond)
+		}
+	}
+	st.L1.Before, st.L2.Before = delay, delay
+	rapid.Check(t, func(t *rapid.T) {
+		st.Reset()
+		clients := rapid.IntRange(3, 10).Draw(t, "clients")
+		nops := rapid.IntRange(2, 6).Draw(t, "ops")
+		keys := []string{"x", "y"}
+		type plan struct {
+			cmds []wire.Cmd
+		}
+		plans := make([][]wire.Cmd, clients)
+		for ci := range plans {
+			for s := 0; s < nops; s++ {
+				kind := rapid.SampledFrom(allKinds).Draw(t, "kind")
+				c := wire.Cmd{Kind: kind, Port: rapid.IntRange(0, 1).Draw(t, "port")}
+				if kind == wire.Get {
+					for j := rapid.IntRange(1, 2).Draw(t, "nkeys"); j > 0; j-- {
+						c.Keys = append(c.Keys, rapid.SampledFrom(keys).Draw(t, "gkey"))
+					}
+				} else {
+					c.Key = rapid.SampledFrom(keys).Draw(t, "key")
+				}
+				switch kind {
+				case wire.Set, wire.Add, wire.Replace, wire.Append, wire.Prepend:
+					c.Value = []byte(fmt.Sprintf("<%d.%d>", ci, s))
+				}
+				if kind == wire.Set || kind == wire.Add || kind == wire.Replace {
+					c.Flags = uint32(ci*100 + s)
+				}
+				plans[ci] = append(plans[ci], c)
+			}
+		}
+		var mu sync.Mutex
+		var ops []porcupine.Operation
+		var problems []string
+		var wg sync.WaitGroup
+		start := make(chan struct{})
+		for ci := range plans {
+			wg.Add(1)
+			go func(ci int) {
+				defer wg.Done()
+				ses := &session{st: st, binary: true}
+				defer ses.close()
+				ses.client(0)
+				ses.client(1)
+				<-start
+				for _, c := range plans[ci] {
+					call := time.Now().UnixNano()
+					o, err := ses.client(c.Port).Do(c)
+					ret := time.Now().UnixNano()
+					if err != nil || len(o.Problems) > 0 || o.Class == wire.Error || o.Class == wire.Closed {
+						mu.Lock()
+						problems = append(problems, fmt.Sprintf("client %d %s: %v %s", ci, c, err, o))
+						mu.Unlock()
+						return
+					}
+					class := "ok"
+					if o.Class == wire.Fail {
+						class = "fail"
+					}
+					mu.Lock()
+					switch c.Kind {
+					case wire.Get, wire.Gat:
+						ks := c.Keys
+						if c.Kind == wire.Gat {
+							ks = []string{c.Key}
+						}
+						used := map[int]bool{}
+						for _, k := range ks {
+							out := kvOut{Class: "ok"}
+							for hi, h := range o.Hits {
+								if h.Key == k && !used[hi] {
+									used[hi] = true
+									out.Hit, out.Value, out.Flags = true, string(h.Value), h.Flags
+									break
+								}
+							}
+							ops = append(ops, porcupine.Operation{ClientId: ci, Input: kvIn{Kind: c.Kind, Key: k}, Call: call, Output: out, Return: ret})
+						}
+					default:
+						ops = append(ops, porcupine.Operation{ClientId: ci, Input: kvIn{Kind: c.Kind, Key: c.Key, Value: string(c.Value), Flags: c.Flags}, Call: call, Output: kvOut{Class: class}, Return: ret})
+					}
+					mu.Unlock()
+				}
+			}(ci)
+		}
+		close(start)
+		wg.Wait()
+		if len(problems) > 0 {
+			t.Fatalf("C03 memproxy %s: %s", cfg, problems[0])
+		}
+		if res, _ := porcupine.CheckOperationsVerbose(kvModel, ops, 20*time.Second); res == porcupine.Illegal {
+			var h []string
+			for _, op := range ops {
+				h = append(h, fmt.Sprintf("[%d,%d] c%d %+v -> %+v", op.Call, op.Return, op.ClientId, op.Input, op.Output))
+			}
+			hp := rec.History("TestC03Memproxy", map[string]interface{}{"config": cfg.String(), "problem": "history not linearizable", "history": h})
+			t.Fatalf("C03 memproxy %s: the observed history of %d operations is not linearizable (saved: %s)\n  %s", cfg, len(ops), hp, strings.Join(h, "\n  "))
+		}
+		if cfg.L1 != "chunked" {
+			if d := l1SubsetOfL2(st); d != "" {
+				t.Fatalf("C03 memproxy %s: after all clients finished: %s", cfg, d)
+			}
+		}
+		rec.Case(true, fmt.Sprintf("mp|%s|%v", cfg, plans), "memproxy-binary-concurrent")
 	})
 }
